@@ -722,10 +722,6 @@ int cmd_check(const Options& o0, const char* argv0)
                          (unsigned long long) kv.second, (unsigned long long) r.digest);
          }
       }
-      if (recheck_mismatch > 0) {
-         rep.harness_problem = true;
-         rep.harness_msg = "determinism recheck failed for " + std::to_string(recheck_mismatch) + " of " + std::to_string(rechecked) + " seeds";
-      }
    }
 
    // -- triage violation candidates: one per distinct class, gates, minimise, replay file
@@ -806,6 +802,14 @@ int cmd_check(const Options& o0, const char* argv0)
    if (not gate_failures.empty() and rep.violation_lines.empty() and rep.known_lines.empty()) {
       rep.harness_problem = true;
       rep.harness_msg = gate_failures.front();
+   }
+   // Likewise the determinism recheck: a digest that differs in a fresh process voids the check, unless violations were
+   // reproduced exactly (a library that keeps state from one run to the next in static storage makes runs depend on
+   // their predecessors, and is reported for what it does).
+   if (recheck_mismatch > 0) {
+      const std::string msg = "determinism recheck failed for " + std::to_string(recheck_mismatch) + " of " + std::to_string(rechecked) + " seeds";
+      if (rep.violation_lines.empty()) { rep.harness_problem = true; rep.harness_msg = msg; }
+      else std::printf("  note: %s (violations above were reproduced exactly and stand)\n", msg.c_str());
    }
 
    // -- re-confirm known findings that carry their own replay plan (generators avoid these triggers)
